@@ -49,7 +49,7 @@ Section Perm.
   (* "x waits for d", on messages: the address of d is among those scan_deps
      finds for the address of x, given the addresses present *)
   Definition waits_for (keys : list str) (d x : message A) : Prop :=
-    exists ds, scan_deps apropos keys fuel (fst x) = Some ds /\ In (fst d) ds.
+    exists ds, scan_deps apropos keys fuel (fst x) (fst x) = Some ds /\ In (fst d) ds.
 
   Lemma waits_is_edge : forall (ms : list (message A)) ps d y x,
     NoDup (map fst ms) -> pushes A apropos fuel ms = Some ps ->
@@ -110,7 +110,7 @@ Section Perm.
       intros y x Hy Hx [ds [Hs Hin]].
       apply (waits_is_edge ms2 ps2 d y x Hnd2 Hp2 (Hlt2 y Hy) (Hlt2 x Hx)).
       exists ds. split; [|assumption].
-      rewrite <- (same_edges A apropos fuel ms1 ms2 _ Hperm). assumption. }
+      rewrite <- (same_edges A apropos fuel ms1 ms2 _ _ Hperm). assumption. }
     assert (Hnd_msgs : NoDup ms1) by (eapply NoDup_map_inv; exact Hnd).
     intros st.
     destruct (perm_invariant (message A) S (waits_for (map_keys A ms1)) apply Hcomm ms1 ms2 s1 s2
